@@ -211,7 +211,7 @@ class Ctx:
         false.  Every true return crosses, for each clause, an edge establishing one of its propositions; every false
         return crosses the negation of every proposition of some clause."""
         pos = [[re.compile('^(?:' + p + ')$') for p in cl] for cl in clauses]
-        neg = [[re.compile('^!(?:' + p + ')$') for p in cl] for cl in clauses]
+        neg = [[re.compile('^(?:' + p[1:] + ')$') if p.startswith('!') else re.compile('^!(?:' + p + ')$') for p in cl] for cl in clauses]
         tr, fr = self.true_returns(fn), self.false_returns(fn)
 
         def crosses_any(site, rxs):
